@@ -912,3 +912,50 @@ def amb_rule(P, E, H):
     except Undecided as e:
         r.error("AMB: not decidable in the abstraction: %s" % e)
     return r
+
+
+# ---------------------------------------------------------------------------- sequence_equal (C03)
+def seq_equal_rule(P, E, H):
+    """sequence_equal built on zip: zip drops the unmatched tail of a longer input, so a `true` on completion
+    is only justified if the end of every sequence is itself an element of what is zipped (an end mark) - which
+    needs a zipped element type with room for it - or if the completion verdict depends on further state."""
+    r = RuleResult("SEQ-EQ", "sequence_equal: a difference in length cannot hide behind zip (end-marked inputs or a completion "
+                             "verdict that depends on state)")
+    root = "operators::sequence_equal::SequenceEqual"
+    a = P.adts.get(root)
+    ts = [t for t in H.triples if t["root"] == root]
+    if a is None or len(ts) != 1:
+        r.error("SEQ-EQ: anchor missing: struct SequenceEqual / its handler triple")
+        return r
+    zips = []
+
+    def walk(t, depth=0):
+        if not isinstance(t, dict) or depth > 8:
+            return
+        if t.get("k") == "adt" and norm(t.get("path") or "") == "operators::zip::Zip":
+            zips.append(t)
+        for x in t.get("args") or []:
+            walk(x, depth + 1)
+        walk(t.get("inner"), depth + 1)
+    for f in a["variants"][0]["fields"]:
+        walk(f["ty"])
+    uses_zip = bool(zips) or any(c.path.startswith("operators::zip::") for b in P.bodies.values()
+                                 if H.type_root(b) == root for c in b.calls)
+    if not uses_zip:
+        r.instance((root, "not built on zip"), False)
+        return r
+    bare = [z for z in zips if any(x.get("k") == "param" for x in (z.get("args") or []))]
+    try:
+        S = Summary(P, E, ts[0]["handlers"]["C"], item_kind="none")
+    except Undecided as e:
+        r.error("SEQ-EQ: completion handler not decidable: %s" % e)
+        return r
+    uncond_true = [p for p in S.paths if not [e for e in p.pc] and any(x[0] == "sink_next" and x[1] == "const:true" for x in p.trace)]
+    r.instance((root, "zip element type"), True, "zip types %s; unconditional `true` on completion: %s"
+               % ([z.get("s") for z in zips], bool(uncond_true)))
+    if bare and uncond_true:
+        r.violate((root, "length difference invisible"),
+                  "sequence_equal zips its inputs as bare items (%s) and answers `true` unconditionally when the zip completes; zip drops "
+                  "the unmatched tail of a longer input, so [1,2,3] vs [1,2] (and [] vs [1]) is reported equal"
+                  % bare[0].get("s"), body=S.b)
+    return r
